@@ -23,13 +23,15 @@ for d in sorted(glob.glob(os.path.join(VERIF, "seeded", "*", ""))):
         missed_first.append(m["id"])
     rows.append("| %s | %s | %s | %s | %s |" % (m["id"], text, "yes" if c.get("caught") else "**NO**", orc, hist.replace("|", "/")[:260]))
 head = """Round 1 (ids -a, -b): two changes per property, "needs something specific to manifest". Round 2 (ids -c, -d): the agents
-were additionally given the one-line summaries of the round-1 ideas for their property and asked for *history- or
-configuration-dependent* changes (state carried between calls, order of reaching definitions, argument reuse, two
-cooperating sites). %d changes in total; all are caught by the quick tier of the responsible check now.
-%d of them were **missed by the version of the check that existed when the change arrived** (%s).
-Every miss was a gap of the *generator / workload* (the oracle was right as soon as the situation was produced) - or, twice, of
-the harness (an uncaught exception of the system under test, a too coarse known-finding signature). Generators were
-extended, never an oracle loosened; what was added is recorded per change in the last column and in `seeded/<id>/meta.json`.
+were additionally given the one-line summaries of the earlier ideas for their property and asked for *history- or
+configuration-dependent* changes. Rounds 3-5 (ids -e ... -j): same, with all earlier ideas listed; round 5 asked for one
+input-triggered and one usage-triggered change per property. No agent ever saw anything from `/verif`. %d changes in total; all are
+caught by the quick tier of the responsible check now.
+%d of them were **missed by the version of the check that existed when the change arrived** or caught by it only by luck (%s).
+Every miss was a gap of the *generator / workload* (the oracle was right as soon as the situation was produced), of an oracle
+that asked too little (C13 path attribution), or of the harness (an uncaught exception of the system under test, a too coarse
+known-finding signature). Generators and oracles were extended, never an oracle loosened; what was added is recorded per change in
+the last column and in `seeded/<id>/meta.json`.
 
 | id | what the change does / what it needs to manifest (from the agent's notes) | caught | first oracle reported | history |
 |---|---|---|---|---|
